@@ -13,16 +13,34 @@ _asm = {}
 _renames = {}
 
 
+class Flags(dict):
+    """one assignment of the emitter's guard flags: keyed by the LOCAL that holds the flag (what the assembler evaluates `if <local>`
+    with); the rules ask by the DFA method the flag was read from (`needs_subwords_code`, ...), whatever the local is called"""
+
+    def __init__(self, d, alias):
+        super().__init__(d)
+        self.alias = alias  # method name -> local name
+
+    def get(self, k, default=None):
+        if k in self:
+            return self[k]
+        if k in self.alias and self.alias[k] in self:
+            return self[self.alias[k]]
+        return default
+
+
 def flag_sets(repo, tier):
     fn = repo.fn(ENTRY)
-    names = [n for n, _ in E.flag_names(repo, fn)]
+    pairs = E.flag_names(repo, fn)
+    names = [n for n, _ in pairs]
+    alias = {m: n for n, m in pairs}
     if tier == "thorough":
-        return names, [dict(zip(names, v)) for v in itertools.product([False, True], repeat=len(names))]
-    sets = [dict.fromkeys(names, False), dict.fromkeys(names, True)]
+        return names, [Flags(dict(zip(names, v)), alias) for v in itertools.product([False, True], repeat=len(names))]
+    sets = [Flags(dict.fromkeys(names, False), alias), Flags(dict.fromkeys(names, True), alias)]
     for n in names:
         d = dict.fromkeys(names, False)
         d[n] = True
-        sets.append(d)
+        sets.append(Flags(d, alias))
     return names, sets
 
 
@@ -44,7 +62,8 @@ def skeleton(repo, flags):
 
 
 def fl(flags):
-    on = [k.replace("needs_", "").replace("_code", "") for k, v in flags.items() if v]
+    back = {n: m for m, n in getattr(flags, "alias", {}).items()}
+    on = [back.get(k, k).replace("needs_", "").replace("_code", "") for k, v in flags.items() if v]
     return "+".join(on) if on else "none"
 
 
